@@ -110,7 +110,7 @@ def _parse_state(t):
 
 def steiner_hull_rounding(case, tag, event):
     """after refine / add_constraint_and_split a Steiner point placed on a convex-hull edge is only the rounded point of that edge:
-    the outer face can have a dent of relative size < 1e-9 (f32: 1e-5) at such a vertex. Everything else (faces ccw, distinct positions) must hold."""
+    the outer face can have a dent of relative size < 3e-9 (f32: 1e-4) at such a vertex. Everything else (faces ccw, distinct positions) must hold."""
     if tag != "geo":
         return False
     if not any(o.split()[0] in ("refine", "split") for o in case.ops):
@@ -143,7 +143,7 @@ def steiner_hull_rounding(case, tag, event):
                     steiner = any(V[k][2] in ("777000", "888000") for k in (og, E[e ^ 1][3], vi))
                     l2 = (b[0] - a[0]) ** 2 + (b[1] - a[1]) ** 2
                     d2 = (p[0] - a[0]) ** 2 + (p[1] - a[1]) ** 2
-                    if not steiner or o * o > Fraction(1, 10 ** (10 if case.scalar == 'f32' else 18)) * l2 * max(d2, l2):
+                    if not steiner or o * o > Fraction(1, 10 ** (8 if case.scalar == 'f32' else 17)) * l2 * max(d2, l2):
                         return False
                     found = True
     return found
